@@ -261,7 +261,17 @@ def build_env(d, reset_override=None):
     types = [grid_object_registry[t] for t in d['state_types']]
     otypes = [grid_object_registry[t] for t in d['obs_types']]
     reset = build_reset(d['reset']) if reset_override is None else reset_override
-    trans = _trf.factory('chain', transition_functions=[_trf.factory(impl.TNAMES[n]) for n in d['trans']])
+    # d['trans_nesting'] (optional): the same list of functions grouped into nested chains, e.g. [2, 3] = chain[chain[f0, f1], chain[f2, f3, f4]];
+    # a chain of chains is the chain of the flattened list (what the model receives)
+    fs = [_trf.factory(impl.TNAMES[n]) for n in d['trans']]
+    nest = d.get('trans_nesting')
+    if nest and sum(nest) == len(fs):
+        groups, i = [], 0
+        for k in nest:
+            groups.append(fs[i] if k == 1 else _trf.factory('chain', transition_functions=fs[i:i + k]))
+            i += k
+        fs = groups
+    trans = _trf.factory('chain', transition_functions=fs)
     obs = build_obs(d['obs'])
     a = area_of(d['obs']['area'])
     return GridWorld(
